@@ -8,11 +8,14 @@ What is proved (all over ℝ, for every geom pose and every direction / witness 
 * `support_maximises` / `mesh_support_maximises`: each support function of `engine_collision_convex.c` (model
   `MjProof/Model/Support.lean`, bitwise-tied to the compiled functions on every run) returns a point of the
   shape that maximises `⟨d,·⟩` over the shape;
-* `distance_certificate`: whenever the checker `sepOK` accepts witness points / a reported distance, the
-  reported distance is within the stated gap of the true distance `setDist A B` of the two shapes;
-* `penetration_certificate_partial`, `reported_depth_refuted`: the same for penetration — the depth is bounded
-  from above by the overlap along the reported normal, the reported depth is attained by a non-separating
-  translation, and a direction with smaller overlap refutes a reported depth;
+* `distance_certificate`: whenever the checker `sepOK` accepts witness points / a direction / a reported distance,
+  the reported distance is within the stated gap of the true distance `setDist A B` of the two shapes;
+  `distance_lower_bound`: a direction accepted by `sepLowerOK` bounds the distance of every pair of points from below
+  (a reported distance below it is wrong);
+* `penetration_certificate_partial`, `depth_upper_bound_partial`, `reported_depth_refuted`,
+  `depth_lower_of_inner_ball`: the same for penetration — the depth is bounded from above by the overlap along the
+  reported normal, the reported depth is attained by a non-separating translation, a direction with smaller overlap
+  refutes a reported depth, and a ball inside both shapes bounds the depth from below;
 * `swap_distance_of_certified`, `swap_symmetry_of_certified`: two certified runs with the geoms swapped report
   the same distance and (for separated shapes) opposite witness vectors, within the certified gaps.
 
